@@ -22,6 +22,8 @@ N2 == {"EVA", "EVB"}
 K2 == {"plain", "cb"}
 K3 == {"plain", "cb", "retry"}
 K4 == {"plain", "cb", "retry", "chain"}
+K5 == {"plain", "cb", "retry", "chain", "closer"}
+KClose == {"plain", "closer"}
 NoDev == {}
 DevLeak == {"c02_cb_leak"}
 DevSkip == {"c02_skip"}
